@@ -111,12 +111,35 @@ func stripComments(s string) string {
 	return lineComment.ReplaceAllString(blockComment.ReplaceAllString(s, ""), "")
 }
 
+// an enum member access as the left operand of `**` (the only spelling the generator uses)
+var powUse = regexp.MustCompile(`[\w$.]+(\["[^"]*"\])? \*\* 2, `)
+
+// judgeEnumXKnown adds the matcher of known finding C06-negative-enum-pow: the bundle is a SyntaxError, the
+// entry uses an enum member as the left operand of `**`, and the case passes once those operands are deleted
+// from the program and from the reference (nothing else changes).
+func judgeEnumXKnown(c EnumXCase) vdrv.Verdict {
+	v := judgeEnumX(c)
+	if !v.OK && v.Discard == "" && strings.HasPrefix(v.Observed, "PARSE-ERROR:SyntaxError") && powUse.MatchString(c.Files["main.ts"]) {
+		n := c
+		n.Files = map[string]string{}
+		for k, s := range c.Files {
+			n.Files[k] = s
+		}
+		n.Files["main.ts"] = powUse.ReplaceAllString(c.Files["main.ts"], "")
+		n.Reference = powUse.ReplaceAllString(c.Reference, "")
+		if w := judgeEnumX(n); w.OK && w.Discard == "" {
+			v.Known = "C06-negative-enum-pow"
+		}
+	}
+	return v
+}
+
 func replayEnumX(raw json.RawMessage) vdrv.Verdict {
 	var c EnumXCase
 	if json.Unmarshal(raw, &c) != nil {
 		return vdrv.Skip("bad-replay")
 	}
-	return judgeEnumX(c)
+	return judgeEnumXKnown(c)
 }
 
 // ----------------------------------------------------------------------------- generator
@@ -504,13 +527,16 @@ func genEnumXCase(rt *rapid.T) EnumXCase {
 
 	// ---- main: imports, an optional local enum, uses
 	var mainTS, mainRef, mainBodyTS strings.Builder
-	type imp struct{ named []string; ns string }
+	type imp struct {
+		named []string
+		ns    string
+	}
 	imports := map[string]*imp{"./f0": {}, "./f1": {}, "./re": {}}
 	var vis []visible
 	usedFiles := map[string]bool{}
-	for _, e := range enums {
-		if g.chance("skipenum", 15) && len(enums) > 1 {
-			continue
+	for i, e := range enums {
+		if g.chance("skipenum", 15) && (len(vis) > 0 || i < len(enums)-1) {
+			continue // not every exported enum is used (the last one is when nothing else was)
 		}
 		src := fmt.Sprintf("./f%d", e.file)
 		exported := e.name
@@ -607,9 +633,9 @@ func genEnumXCase(rt *rapid.T) EnumXCase {
 
 func runEnumX(t *testing.T) {
 	H.Rule("enumx", "rapid: one or two modules that export enums / const enums (auto-increment, numeric constant expressions over literals, earlier members, enums of the same file and — numeric only, followed by an explicit initialiser — enums imported from the other module by name, renamed or through a namespace import; string members, concatenations and templates over string members of the same file; quoted member names; computed members and top-level side effects in modules that declare plain enums only), an optional re-exporting module (`export { E as RE } from`, `export *`), and an entry that imports each enum directly or through the re-export by name, renamed or through a namespace import, optionally declares its own enum over the imported ones, and uses members in many expression contexts (`.m`, [\"m\"], `**`, `.toString()`, template, computed key, switch case, unary minus; reverse mapping, Object.keys and the whole object for plain enums only); × bundle format {iife, esm} × minify {off, syntax, all}. The reference is one script: every enum spelled as the object TypeScript defines (numeric members with reverse mapping, string members without), modules in ES evaluation order of the surviving imports, the uses spelled with the declared names. Oracle: V8 trace of the bundle == V8 trace of the reference (const and plain enums, inlined or not, minified or not must all give the values V8 computes); additionally a const enum whose members are constants of its own file and that is used only through member accesses must not be accessed as an object anywhere in the bundle (cross-module inlining; not checked with minified identifiers). Excluded by construction (isolatedModules rules that esbuild documents): `declare const enum` across modules, auto-increment after a member initialised from another module's enum, string members initialised from another module's enum, `**` in initialisers (C03), number-to-string conversion in template initialisers, const enums in modules with side effects. non-trivial = ≥3 events and ≥2 modules")
-	H.SetupRapid("enumx", H.N(2400, 120000))
+	H.SetupRapid("enumx", H.N(2000, 100000))
 	rapid.Check(t, func(rt *rapid.T) {
 		c := genEnumXCase(rt)
-		H.Report(rt, "enumx", filesText(c.Files)+c.Format+c.Minify, c, judgeEnumX(c))
+		H.Report(rt, "enumx", filesText(c.Files)+c.Format+c.Minify, c, judgeEnumXKnown(c))
 	})
 }
